@@ -127,6 +127,7 @@ var scalarTypes = map[string]reflect.Type{
 }
 
 var ifaceType = reflect.TypeOf((*interface{})(nil)).Elem()
+var folderIfcType = reflect.TypeOf((*gotype.Folder)(nil)).Elem()
 
 // ---- fixed registry of hand-written named types (cannot be made by reflect)
 
@@ -289,6 +290,9 @@ func buildType(t *TD) reflect.Type {
 	case "ptr":
 		return reflect.PtrTo(buildType(&t.E[0]))
 	case "iface":
+		if t.ID == "folder" {
+			return folderIfcType // a non-empty interface type: the library's own gotype.Folder
+		}
 		return ifaceType
 	case "named":
 		if nt, ok := namedTypes[t.ID]; ok {
